@@ -56,8 +56,9 @@ PROPS = {
 }
 
 # --- temporary engine-only entries (theorem modules follow)
-for _p, _e in {"C01": ["decblk", "decobj"], "C02": ["decblk"], "C04": ["cm", "enc", "params"], "C05": ["partition", "object"],
+for _p, _e in {"C01": ["decblk", "decobj"], "C02": ["decblk", "overhead"], "C04": ["cm", "enc", "params"], "C05": ["partition", "object"],
                "C06": ["inter", "plan"], "C08": ["decblk", "decobj"], "C18": ["repair", "object"], "C14": ["genparams"], "C15": ["params"]}.items():
     PROPS.setdefault(_p, {"thm_modules": [], "engines": [(e, "release") for e in _e]})
 for _p, _e in {"C11": ["kernels"], "C12": ["kernels", "slab"], "C09": ["linear", "plan", "slab", "kernels"]}.items():
     PROPS.setdefault(_p, {"thm_modules": [], "engines": [(e, "release") for e in _e]})
+PROPS.setdefault("C03", {"thm_modules": [], "engines": [("overhead", "release")], "level": "other"})
